@@ -206,9 +206,17 @@ func init() {
 		},
 		"fmt.Sprintf": func(m *Machine, c *frame, a []value) value {
 			f, _ := a[0].(*String).concrete()
+			if args, ok := m.goArgs(a[1]); ok {
+				return strOf(fmt.Sprintf(f, args...))
+			}
 			return strOf("fmt.Sprintf:" + f)
 		},
-		"fmt.Sprint":                  func(m *Machine, c *frame, a []value) value { return strOf("fmt.Sprint") },
+		"fmt.Sprint": func(m *Machine, c *frame, a []value) value {
+			if args, ok := m.goArgs(a[0]); ok {
+				return strOf(fmt.Sprint(args...))
+			}
+			return strOf("fmt.Sprint")
+		},
 		"internal/reflectlite.TypeOf": func(m *Machine, c *frame, a []value) value { return Iface{t: errT, v: &Native{kind: "rtype"}} },
 		"math.Float64frombits":        func(m *Machine, c *frame, a []value) value { return a[0] },
 		"math.Float64bits":            func(m *Machine, c *frame, a []value) value { return a[0] },
@@ -373,4 +381,54 @@ func (m *Machine) assert(cond *Term, msg string) {
 		m.uncertain = true
 	}
 	m.pc = append(m.pc, cond)
+}
+
+// goArgs converts a []interface{} of concrete basic values to host values (for formatting).
+func (m *Machine) goArgs(v value) ([]interface{}, bool) {
+	sl, ok := v.(Slice)
+	if !ok {
+		return nil, false
+	}
+	if sl.arr == nil {
+		return nil, true
+	}
+	if sl.len.sym != nil {
+		return nil, false
+	}
+	var out []interface{}
+	for i := 0; i < int(sl.len.c); i++ {
+		e, ok := m.sliceElem(sl, i).(Iface)
+		if !ok || e.t == nil {
+			return nil, false
+		}
+		switch x := e.v.(type) {
+		case *String:
+			s, ok := x.concrete()
+			if !ok {
+				return nil, false
+			}
+			out = append(out, s)
+		case Scalar:
+			if x.sym != nil {
+				return nil, false
+			}
+			b, ok := e.t.Underlying().(*types.Basic)
+			if !ok {
+				return nil, false
+			}
+			switch {
+			case b.Info()&types.IsBoolean != 0:
+				out = append(out, x.c != 0)
+			case b.Info()&types.IsUnsigned != 0:
+				out = append(out, x.c)
+			case b.Info()&types.IsInteger != 0:
+				out = append(out, sx(x.c, widthOf(b)))
+			default:
+				return nil, false
+			}
+		default:
+			return nil, false
+		}
+	}
+	return out, true
 }
